@@ -2,7 +2,7 @@
 """store_ref.py REF<k>/R<j> <PID>  - keep a behaviour-preserving refactoring as a 'silent' variant for property PID."""
 import json, os, shutil, sys
 key, pid = sys.argv[1], sys.argv[2]
-src = os.path.join("/tmp/seed_out", key)
+src = os.path.join(os.environ.get("SEED_SRC", "/tmp/seed_out"), key)
 name = "%s_%s" % (key.replace("/", "_"), pid)
 dst = os.path.join("/verif/seeded", name)
 os.makedirs(dst, exist_ok=True)
